@@ -67,6 +67,12 @@ CLAIMS = {
          "DESIGN.md §3 C12",
          "Trusted: modular assumption (each callee meets its own declaration), monotone size queries; mirror-form table frozen from the reference tree.",
          "max-plus symbolic accounting over MIR paths + path-sensitive typestate of scratch temporaries", True),
+
+ "C16": ("other",
+         "Metadata-write and error-path discipline of the CKKS layer on MIR: CKKSMeta is written only by the owning modules (78 sites); every usize subtraction of budget/precision accessors is dominated by a comparison establishing minuend >= subtrahend over the same value numbers (or is one of two reasoned table exceptions); automorphism-key lookups and checked budget arithmetic are never unwrapped; every out-of-place `*_into*` operation defines both dst.meta fields on every success return (interprocedural summary over 60 operations through delegates and backend impls); an equality fast path and the ordering branches following it compare the same pair of quantities. Slot values, error magnitudes and log_delta+log_budget <= max_k are not decided.",
+         "DESIGN.md §3 C16",
+         "Trusted: poulpy-core shape asserts are outside the property; metadata need not be untouched on Err.",
+         "MIR dominator-based guard analysis + interprocedural must-define summary + comparison-chain consistency", True),
 }
 NOT_BUILT = {}
 
